@@ -29,21 +29,8 @@ pub fn horizon_us(cfg: &RingCfg, cap_slots: i64) -> i64 {
 }
 
 fn ring_case(t: &mut Tape, obs: &mut Obs, cap_slots: i64) -> CaseResult {
-    let mut cfg = gen_ring_cfg(t, &GenOpts { min_n: 2, max_n: 5, max_hsa_extra: 40, late_joiners: true });
-    // in a fifth of the cases the PHYs have a constant transmit latency (UART FIFO, USB adapter):
-    // the first bit is on the wire that much later than transmit_data() was called and
-    // poll_transmission() stays true until the data has really been sent.  The slot time has to
-    // cover the latency of both directions of a message cycle.
-    let lat_bits = if t.chance(1, 5) { 3 + t.below((u64::from(cfg.slot_bits) - 10).min(300)) } else { 0 };
-    if lat_bits > 0 {
-        // (the latency of the responder; the requester's own latency is over when its slot timer starts)
-        cfg.slot_bits = (u64::from(cfg.slot_bits) + lat_bits).min(16_000) as u16;
-        obs.label("phy-with-transmit-latency");
-    }
+    let cfg = gen_ring_cfg(t, &GenOpts { min_n: 2, max_n: 5, max_hsa_extra: 40, late_joiners: true });
     let mut sim = Sim::new(cfg.clone(), 1);
-    for i in 0..cfg.stations.len() {
-        sim.bus.0.borrow_mut().tx_latency_us[i] = if lat_bits > 0 { cfg.bits_us(lat_bits) } else { 0 };
-    }
     let apps = attach_apps(&mut sim, t);
     let passive = crate::apps::add_passive_peers(&mut sim, t);
     if passive.iter().any(|a| *a < cfg.hsa) {
@@ -133,7 +120,7 @@ fn ring_case(t: &mut Tape, obs: &mut Obs, cap_slots: i64) -> CaseResult {
 pub fn property() -> Property {
     Property {
         id: "C01",
-        rule: "cases: fault-free rings of 2..5 real FdlActiveStations on the SimBus (all 11 baud rates, Tslot from the builder minimum, HSA/gap factor/TTR/max_retry generated, addresses biased to HSA-1 / 0 / adjacent pairs), cold start together or late joiners, poll schedules jitter/fixed/lock-step/aligned-to-telegram-ends with periods up to min(Tslot/4, (Tslot-50bit)/3), with and without applications (live list, DP scanner), in a fifth of the cases over PHYs with a constant transmit latency of 3..300 bit times (slot time enlarged by the latency); the byte-accurate bus trace is judged: no overlap, >= 33 bit (initiated) / >= 11 bit (reply) idle time up to 1 us, and the right to transmit (token owner, retry of own pass, answer to a request addressed to it, claim after own silence time-out). Non-trivial = a ring of >= 2 stations formed and at least one GAP poll was answered by another station; distinct by (baud, addresses, HSA, G, Tslot, schedule class).",
+        rule: "cases: fault-free rings of 2..5 real FdlActiveStations on the SimBus (all 11 baud rates, Tslot from the builder minimum, HSA/gap factor/TTR/max_retry generated, addresses biased to HSA-1 / 0 / adjacent pairs), cold start together or late joiners, poll schedules jitter/fixed/lock-step/aligned-to-telegram-ends with periods up to min(Tslot/4, (Tslot-50bit)/3), with and without applications (live list, DP scanner); the byte-accurate bus trace is judged: no overlap, >= 33 bit (initiated) / >= 11 bit (reply) idle time up to 1 us, and the right to transmit (token owner, retry of own pass, answer to a request addressed to it, claim after own silence time-out). Non-trivial = a ring of >= 2 stations formed and at least one GAP poll was answered by another station; distinct by (baud, addresses, HSA, G, Tslot, schedule class).",
         assumptions: vec![
             "SimBus timing model (harness/src/simbus.rs): byte i of a transmission occupies [start+11i bit, start+11(i+1) bit), receivers see a byte when its last bit has passed",
             "poll periods are capped at min(Tslot/4, (Tslot-50 bit)/3): a poll-driven station needs 3 polls + 44 bit to take over the token (DESIGN 5.3); the un-synchronised cold-start claim race and stale receive buffers at set_online() are excluded as the property says",
